@@ -3,7 +3,7 @@
    Z/N/positive/nat stay Coq datatypes.  No Extract Constant / Extract Inductive of our own. *)
 Require Extraction.
 Require Import ExtrOcamlBasic.
-From Verif Require Import Lib.Bytes Model.IPRange Model.Path Model.Fs Model.Session Model.IsoRead Model.Crypt.
+From Verif Require Import Lib.Bytes Model.IPRange Model.Path Model.Fs Model.Session Model.IsoRead Model.Crypt Model.Listener Model.Timeout.
 
 Extraction Language OCaml.
 Extraction "model.ml"
@@ -11,5 +11,7 @@ Extraction "model.ml"
   Path.rooted_elems Path.render
   Fs.get_inode Fs.walk Fs.sort_names
   IsoRead.iso_run IsoRead.iso_read
+  Listener.lrun
+  Timeout.tserve
   Crypt.new_encrypted Crypt.crypt_run Crypt.crypt_read_at
   Session.serve_all Session.step Session.parse_request Session.held.
